@@ -117,9 +117,10 @@ def check_case(case):
                             "which parses to an instant off by %s s" % (
                                 mode, M.fmt_kw(kw), fmt, s,
                                 float(nq.instant - ip)))
-                elif int_class and not (q == p):
+                elif int_class and not (q == p and p == q):
                     fail = "format_equal: %r (format %r) parses to a point != " \
-                           "the original %s" % (s, fmt, M.fmt_kw(kw))
+                           "the original %s (q == p: %r, p == q: %r)" % (
+                               s, fmt, M.fmt_kw(kw), q == p, p == q)
         except Exception as e:      # noqa: BLE001
             fail = "exception: mode %s %r raised %s: %s" % (
                 mode, {k: v for k, v in case.items() if k != "_history"},
